@@ -304,7 +304,8 @@ findGeodesicsDijkstra(const Graph &graph, VertexIndex source) {
 
     while (!unprocessedVertices.empty()) {
         auto vertex = unprocessedVertices.front();
-        std::pop_heap(unprocessedVertices.begin(), unprocessedVertices.end());
+        std::pop_heap(unprocessedVertices.begin(), unprocessedVertices.end(),
+                      priorityComparison);
         unprocessedVertices.pop_back();
         for (auto &neighbour : graph.getOutNeighbours(vertex)) {
             EdgeWeight newPathLength =
